@@ -31,6 +31,27 @@ func init() {
 		"encoding/binary.littleEndian.PutUint32": func(c *Ctx, st *State, x *ast.CallExpr, r Val) Val { return c.beWrite(st, x, 4, false) },
 		"encoding/binary.littleEndian.PutUint64": func(c *Ctx, st *State, x *ast.CallExpr, r Val) Val { return c.beWrite(st, x, 8, false) },
 		"encoding/binary.Uvarint":                preUvarint,
+		"reflect.ValueOf": func(c *Ctx, st *State, x *ast.CallExpr, r Val) Val {
+			c.trust("reflect.ValueOf(x).IsNil() = (x == nil) for reference-like x")
+			v := c.eval(st, x.Args[0])
+			switch s := v.(type) {
+			case Ptr:
+				return Scalar{s.Ref, types.Typ[types.UnsafePointer]}
+			case Scalar:
+				return Scalar{s.T, types.Typ[types.UnsafePointer]}
+			case Slice:
+				return Scalar{s.Ref, types.Typ[types.UnsafePointer]}
+			}
+			unsupp("reflect.ValueOf of %T", v)
+			return nil
+		},
+		"reflect.Value.IsNil": func(c *Ctx, st *State, x *ast.CallExpr, r Val) Val {
+			s, ok := r.(Scalar)
+			if !ok {
+				unsupp("reflect.Value.IsNil on unmodelled value")
+			}
+			return Scalar{Eq(s.T, Term{"0", SInt}), tBool}
+		},
 		"math.Float64bits":                       preFloatBits,
 		"math.Float64frombits":                   preFloatFromBits,
 		"math.Float32bits":                       preFloatBits,
